@@ -3,6 +3,7 @@ package c03
 import (
 	"fmt"
 	"net/url"
+	"regexp"
 	"sort"
 	"strconv"
 	"strings"
@@ -10,6 +11,8 @@ import (
 	"github.com/corazawaf/coraza/v3/internal/verif/probe"
 	"github.com/corazawaf/coraza/v3/internal/verif/scen"
 )
+
+var digits = regexp.MustCompile(`[0-9]+`)
 
 // expect is what the property text demands to be readable for one case.
 type expect struct {
@@ -231,7 +234,7 @@ func judge(cs Case, exp *expect, o *probe.Outcome) verdict {
 	}
 	v.outcome = ob.String()
 	if o.Panic != "" {
-		v.sig = "panic:" + o.Panic
+		v.sig = "panic:" + digits.ReplaceAllString(o.Panic, "N")
 		v.what = "panic while processing the request: " + o.Panic
 		return v
 	}
@@ -278,7 +281,7 @@ func judge(cs Case, exp *expect, o *probe.Outcome) verdict {
 		if len(missing) == 0 && len(extra) == 0 {
 			continue
 		}
-		v.sig = classify(cs, sp, missing, extra, got)
+		v.sig = classify(cs, sp, missing, extra, have, got)
 		v.what = fmt.Sprintf("%s: sent %s, readable %s (missing %s, unexpected %s); no error variable, no interruption",
 			sp.name, fmtKVs(want), fmtKVs(have), fmtKVs(missing), fmtKVs(extra))
 		return v
@@ -323,42 +326,74 @@ func diff(want, have []kv) (missing, extra []kv) {
 // ---------------------------------------------------------------------------
 // root-cause classification
 
-func classify(cs Case, sp varSpec, missing, extra []kv, got map[string][]kv) string {
-	procEmpty := len(got["REQBODY_PROCESSOR"]) == 0 || got["REQBODY_PROCESSOR"][0].v == ""
-	isArgs := strings.HasPrefix(sp.name, "ARGS")
-	switch {
-	// arguments beyond SecArgumentsLimit vanish without any signal
-	case cs.Chan == "query" && isArgs && cs.Set.Limit > 0 && len(cs.Items) > cs.Set.Limit && len(extra) == 0:
-		return "arglimit:get-arguments-over-SecArgumentsLimit-dropped-without-signal"
-	// Content-Type with parameters does not select the urlencoded processor
-	case cs.Chan == "urlenc" && strings.HasPrefix(cs.CType, "charset") && procEmpty && len(extra) == 0:
-		return "ctype:urlencoded-content-type-with-parameter-selects-no-body-processor"
-	case cs.Chan == "json" && isArgs && len(extra) == 0 && len(missing) > 0:
-		if how := jsonCollision(cs, missing); how != "" {
-			return "json:" + how
-		}
-	case cs.Chan == "multipart" && sp.name == "FILES_SIZES" && len(extra) == 0 && sameFileName(cs, missing):
-		return "files_sizes:files-with-the-same-file-name-keep-one-size"
+// source names the input path a variable is fed from, so that one defect in
+// that path gives one signature whatever channel the case exercises.
+func source(cs Case, sp varSpec) string {
+	switch sp.name {
+	case "ARGS_GET", "ARGS_GET_NAMES", "QUERY_STRING", "REQUEST_URI", "REQUEST_URI_RAW", "REQUEST_FILENAME", "REQUEST_BASENAME", "REQUEST_LINE":
+		return "uri"
+	case "REQUEST_HEADERS", "REQUEST_HEADERS_NAMES":
+		return "header"
+	case "REQUEST_COOKIES", "REQUEST_COOKIES_NAMES":
+		return "cookie"
+	case "ARGS", "ARGS_NAMES":
+		return "args-concat" // ARGS_GET and ARGS_POST were as expected, their concatenation is not
 	}
+	return cs.Chan
+}
+
+func classify(cs Case, sp varSpec, missing, extra, have []kv, got map[string][]kv) string {
+	procEmpty := len(got["REQBODY_PROCESSOR"]) == 0 || got["REQBODY_PROCESSOR"][0].v == ""
+	src := source(cs, sp)
+	nGet := 1
+	if cs.Chan == "query" {
+		nGet = len(cs.Items)
+	}
+	limited := src == "uri" && strings.HasPrefix(sp.name, "ARGS") && cs.Set.Limit > 0
+	overLimit := limited && nGet > cs.Set.Limit
 	kind := ""
-	switch {
-	case len(extra) == 0:
-		kind = "missing" + siblings(cs, sp, missing)
-	case len(missing) == 0:
-		kind = "unexpected-extra"
-	default:
-		kind = pairUp(missing, extra)
+	if len(extra) == 0 {
+		switch {
+		// arguments beyond SecArgumentsLimit vanish without any signal
+		case overLimit:
+			return "arglimit:get-arguments-over-SecArgumentsLimit-dropped-without-signal"
+		case limited:
+			return "arglimit:get-arguments-within-SecArgumentsLimit-dropped"
+		// Content-Type with parameters does not select the urlencoded processor
+		case cs.Chan == "urlenc" && src == "urlenc" && strings.HasPrefix(cs.CType, "charset") && procEmpty:
+			return "ctype:urlencoded-content-type-with-parameter-selects-no-body-processor"
+		case cs.Chan == "multipart" && sp.name == "FILES_SIZES" && sameFileName(cs, missing):
+			return "files_sizes:files-with-the-same-file-name-keep-one-size"
+		case cs.Chan == "json" && src == "json":
+			if how := jsonCollision(cs, missing); how != "" {
+				return "json:" + how
+			}
+		}
+		kind = "missing" + siblings(cs, sp, missing, have)
+	} else {
+		hows, leftover, ok := explain(missing, extra)
+		switch {
+		case !ok && len(missing) == 0:
+			kind = "unexpected-extra"
+		case !ok:
+			kind = ""
+		default:
+			kind = hows
+			if len(leftover) > 0 && !overLimit {
+				kind += "+missing"
+			}
+		}
 	}
 	if kind == "" {
 		b, _ := jsonMarshal(cs)
-		return "unclassified:" + cs.Chan + "/" + sp.name + ":" + b
+		return "unclassified:" + src + "/" + sp.name + ":" + b
 	}
-	return cs.Chan + "/" + sp.name + ":" + kind
+	return src + "/" + sp.name + ":" + kind
 }
 
 // siblings refines "missing" by the narrowest relation between every missing
 // item and the other items sent in the same collection.
-func siblings(cs Case, sp varSpec, missing []kv) string {
+func siblings(cs Case, sp varSpec, missing, have []kv) string {
 	name := func(it Item) string {
 		switch {
 		case cs.Chan == "json":
@@ -386,10 +421,20 @@ func siblings(cs Case, sp varSpec, missing []kv) string {
 				fold++
 			}
 		}
-		if same < 2 {
+		survivor := false
+		for _, h := range have {
+			hk := h.k
+			if sp.mode != "kv" && sp.mode != "kvlower" {
+				hk = h.v
+			}
+			if strings.EqualFold(hk, k) {
+				survivor = true
+			}
+		}
+		if same < 2 || !survivor {
 			allSame = false
 		}
-		if same+fold < 2 {
+		if same+fold < 2 || !survivor {
 			allFold = false
 		}
 	}
@@ -468,53 +513,53 @@ func sameFileName(cs Case, missing []kv) bool {
 	return true
 }
 
-// pairUp explains every missing item by one unexpected item.
-func pairUp(missing, extra []kv) string {
-	if len(missing) != len(extra) {
-		return ""
-	}
-	used := make([]bool, len(extra))
-	hows := map[string]bool{}
-	for _, m := range missing {
+// explain accounts for every unexpected item by one missing item it derives
+// from; leftover = missing items not used that way.
+func explain(missing, extra []kv) (hows string, leftover []kv, ok bool) {
+	used := make([]bool, len(missing))
+	set := map[string]bool{}
+	for _, e := range extra {
 		found := false
-		for j, e := range extra {
+		for j, m := range missing {
 			if used[j] {
 				continue
 			}
 			h := ""
 			switch {
 			case m.k == e.k:
-				h = rel(m.v, e.v)
-				if h != "" {
+				if h = rel(m.v, e.v); h != "" {
 					h = "value-" + h
 				}
 			case m.v == e.v:
-				h = rel(m.k, e.k)
-				if h != "" {
+				if h = rel(m.k, e.k); h != "" {
 					h = "name-" + h
 				}
 			default:
-				a, b := rel(m.k, e.k), rel(m.v, e.v)
-				if a != "" && a == b {
+				if a, b := rel(m.k, e.k), rel(m.v, e.v); a != "" && a == b {
 					h = "name-and-value-" + a
 				}
 			}
-			if h != "" {
+			if h != "" && h != "name-and-value-altered" {
 				used[j], found = true, true
-				hows[h] = true
+				set[h] = true
 				break
 			}
 		}
 		if !found {
-			return ""
+			return "", nil, false
 		}
 	}
-	l := make([]string, 0, len(hows))
-	for h := range hows {
+	for j, m := range missing {
+		if !used[j] {
+			leftover = append(leftover, m)
+		}
+	}
+	l := make([]string, 0, len(set))
+	for h := range set {
 		l = append(l, h)
 	}
 	sort.Strings(l)
-	return strings.Join(l, "+")
+	return strings.Join(l, "+"), leftover, true
 }
 
 // rel names how the observed string b derives from the sent string a.
@@ -528,6 +573,10 @@ func rel(a, b string) string {
 		return "left-encoded"
 	case strings.EqualFold(a, b):
 		return "case-changed"
+	case len(a) >= 2 && a[0] == '"' && a[len(a)-1] == '"' && b == a[1:len(a)-1]:
+		return "quotes-stripped"
+	case strings.ContainsAny(a, "/\\") && b == a[strings.LastIndexAny(a, "/\\")+1:]:
+		return "directory-stripped"
 	case strings.TrimSpace(a) == b:
 		return "trimmed"
 	case strings.HasPrefix(a, b):
